@@ -6,7 +6,7 @@
 From Coq Require Import String.
 From Http Require Import Model.Bytes Model.Utf8 Model.Num Model.Headers Model.Request
      Spec.HeaderGrammar Spec.ChunkedGrammar Spec.RequestGrammar
-     Proofs.ReqGrammar Proofs.HeaderGrammarProofs Proofs.PrefixNeedsMore.
+     Proofs.ReqGrammar Proofs.HeaderGrammarProofs Proofs.PrefixNeedsMore Proofs.Timely.
 
 (* the grammar, pinned (Spec/RequestGrammar.v, Spec/HeaderGrammar.v) *)
 Check (eq_refl : @request_line = fun meth tstr => meth ++ [SP] ++ tstr ++ [SP] ++ HTTP11).
@@ -48,6 +48,23 @@ Theorem C03_prefix_needs_more :
     exists st c, req_parse uri uri_parse cfg req_init p = (st, Incomplete c).
 Proof. exact request_prefix_needs_more. Qed.
 Print Assumptions C03_prefix_needs_more.
+
+(* timeliness: "more input" is only answered while the element being read is unfinished --
+   no CRLF yet for the request line; the header block not yet complete; or declared body bytes
+   still missing (then everything presented was consumed).  So once request line and header
+   block are complete the answer is Complete, a rejection, or a wait for body bytes only. *)
+Theorem C03_more_input_only_while_unfinished :
+  forall (uri : Type) (uri_parse : bytes -> option uri) cfg s (st : req_state uri) c,
+    req_parse uri uri_parse cfg req_init s = (st, Incomplete c) ->
+    match r_phase st with
+    | PRequestLine => find_crlf s = None /\ c = 0
+    | PHeaders =>
+        exists e hs k, find_crlf s = Some e /\ c = e + 2 + k /\
+                       hdr_parse (hl cfg) [] (strip_cr (skipn (e + 2) s)) = HIncomplete hs k
+    | PBody n => c = length s /\ (N.of_nat (length (r_body st)) < n)%N
+    end.
+Proof. exact request_incomplete_means_unfinished. Qed.
+Print Assumptions C03_more_input_only_while_unfinished.
 
 (* the header block alone: exactly the field grammar, with unfolding and trimming *)
 Theorem C03_header_block_exact :
